@@ -18,6 +18,11 @@ CLAIMED["C15"] = ("§3 C15",
     "Decides that every file-system mutation of Unzip lies behind the archive check and targets filepath.Join(dir, checked entry name); that in both sibling checkers each gating check (clean path, CheckFilePath, local-module, collision, cue.mod placement/case, size limits) stands on every path to acceptance and its rejecting edge skips the entry; that files are created only with O_CREATE|O_EXCL; that declared sizes are enforced by LimitedReader(size+1) with the exhaustion test before success; that CheckedFiles.Err consults every recorded error; and that the CheckFilePath chain rejects on each of its tests.",
     "archive/zip, io.LimitedReader and O_EXCL semantics trusted; which characters fileNameOK admits and Unicode case folding are value-level and not decided")
 
+CLAIMED["C14"] = ("§3 C14",
+    "lockset (must-hold) analysis + capture analysis of concurrently executed closures, CFG must-pass, channel-token pairing, guard atoms on Graph.Require, sorted-after-map-range",
+    "Decides the schedule/order-independence mechanisms: shared state of the parallel walks (mvs.buildList, modrequirements.readModGraph) is only touched under one mutex; every requirement handed to g.Require is enqueued on every path; par.Work/Cache/Queue internal discipline (guarded fields, publish-before-done, single flight, token pairing); Graph.Require is a max-merge and Graph.BuildList sorts what it takes from a map. It does not decide minimality/sufficiency of versions or SemVer precedence.",
+    "sync/atomic semantics trusted; only internal/mod/mvs, internal/mod/modrequirements (readModGraph) and internal/par are analysed")
+
 # properties not claimed (yet) -> reason
 NOT_APPLICABLE = {
     "C03": "value-level: the content is the cell values of the bound-simplification decision table over numbers; no shape rule separates a correct table from an off-by-one (DESIGN.md §4)",
